@@ -23,11 +23,14 @@ import (
 // expiries and epoch boundaries are a few momentums away. EpochMomentums is the resulting epoch length.
 const EpochMomentums = 60
 
+// UpdateMomentums: a reward contract accepts an Update only this many momentums after the previous one.
+const UpdateMomentums = 20
+
 func LabConstants() {
 	consensus.EpochDuration = 10 * time.Minute
 	constants.MomentumsPerEpoch = EpochMomentums
 	constants.RewardTimeLimit = 60
-	constants.UpdateMinNumMomentums = 20
+	constants.UpdateMinNumMomentums = UpdateMomentums
 	constants.FuseExpiration = 6
 	constants.StakeTimeUnitSec = 60
 	constants.StakeTimeMinSec = 60
